@@ -396,6 +396,13 @@ func (fr *Frame) chanSend(st *State, ch, x *Term, chType types.Type, cond *Term,
 	ex.assume(st, Le(IntLit(0), cnt)) // ghost counters count events
 	ex.set(st, seq, Ite(cond, Store(sq, ch, Store(Select(sq, ch), cnt, x)), sq))
 	ex.set(st, nc, Ite(cond, Store(n, ch, Add(cnt, IntLit(1))), n))
+	if ex.stamps && ex.ghost == 0 {
+		// every send is stamped with the number of values of this element type the thread has received so far
+		sc, scs := "ChanSentStamp_"+typeKey(elem), ArraySort(SRef, ArraySort(SInt, SInt))
+		stp := ex.get(st, sc, scs)
+		tot := ex.get(st, "LogN_recv_"+sanitize(typeKey(elem)), SInt)
+		ex.set(st, sc, Ite(cond, Store(stp, ch, Store(Select(stp, ch), cnt, tot)), stp))
+	}
 }
 
 func (fr *Frame) chanRecv(st *State, ch *Term, chType types.Type, commaOk bool, pos token.Pos) Val {
@@ -411,6 +418,12 @@ func (fr *Frame) chanRecv(st *State, ch *Term, chType types.Type, commaOk bool, 
 	n := ex.get(st, "ChanRecvN_"+typeKey(elem), ns)
 	cnt := Select(n, ch)
 	ex.assume(st, Implies(Not(ok), Eq(v, ex.ctx.Zero(elem))))
+	// a channel the contract declares never closed (by anybody: an assumption about the environment, listed as
+	// trusted) always yields a value
+	if ex.ghost == 0 {
+		ncl := ex.get(st, "ChanNeverClosed_"+typeKey(elem), ArraySort(SRef, SBool))
+		ex.assume(st, Implies(Select(ncl, ch), ok))
+	}
 	// the log of received values doubles as a prophecy: what is received as the cnt-th value is what the log (an
 	// arbitrary array until then) holds at cnt, so that a precondition can speak about the values still to come
 	// (forall j >= recvN(ch): P(recvAt(ch, j)))
@@ -418,6 +431,15 @@ func (fr *Frame) chanRecv(st *State, ch *Term, chType types.Type, commaOk bool, 
 	fr.loadFacts(st, v, elem)
 	ex.set(st, seq, Ite(ok, Store(sq, ch, Store(Select(sq, ch), cnt, v)), sq))
 	ex.set(st, "ChanRecvN_"+typeKey(elem), Ite(ok, Store(n, ch, Add(cnt, IntLit(1))), n))
+	if ex.stamps && ex.ghost == 0 {
+		// thread-level log of the values of this element type received, in the order received (whatever the channel)
+		lc, ln := "Log_recv_"+sanitize(typeKey(elem)), "LogN_recv_"+sanitize(typeKey(elem))
+		l := ex.get(st, lc, ArraySort(SInt, es))
+		tn := ex.get(st, ln, SInt)
+		ex.assume(st, Le(IntLit(0), tn))
+		ex.set(st, lc, Ite(ok, Store(l, tn, v), l))
+		ex.set(st, ln, Ite(ok, Add(tn, IntLit(1)), tn))
+	}
 	// ghost: a receive that reports "closed" means the channel is closed and everything sent on it has been taken
 	dc := "ChanDrained_" + typeKey(elem)
 	dr := ex.get(st, dc, ArraySort(SRef, SBool))
@@ -447,6 +469,9 @@ func (fr *Frame) selectOp(st *State, in *ssa.Select) Val {
 			x := fr.val(st, s.Send)
 			fr.chanSend(st, ch.T, x.T, s.Chan.Type(), chosen, s.Pos)
 		} else {
+			// (read-only ghost state is materialised before the clone, so that the merge below does not take a first
+			// read for a write)
+			ex.get(st, "ChanNeverClosed_"+typeKey(chanElem(s.Chan.Type())), ArraySort(SRef, SBool))
 			sub := st.clone()
 			sub.pc = And(st.pc, chosen)
 			r := fr.chanRecv(sub, ch.T, s.Chan.Type(), true, s.Pos)
